@@ -79,6 +79,20 @@ class RawMsg(object):
     def __init__(self, s): self.s = s
     def __str__(self): return self.s
 
+def out_object(ircmsgs, op):
+    """what a 'q' op puts on the queue: ('q', s) an object whose str() is s; ('q', s, 'raw') the real
+    IrcMsg(s) built from the line (as Owner.ircquote does); ('q', s, 'f', prefix, command, args) the real
+    IrcMsg built from its fields.  Either way the driver must write the UTF-8 of str(m) == s."""
+    if len(op) > 2:
+        try:
+            if op[2] == 'raw': m = ircmsgs.IrcMsg(op[1])
+            else: m = ircmsgs.IrcMsg(prefix=op[3], command=op[4], args=tuple(op[5]))
+            if str(m) == op[1]:
+                return m
+        except Exception:
+            pass
+    return RawMsg(op[1])
+
 class StubIrc(object):
     network = 'test'
     def __init__(self, ircmsgs, rig):
@@ -221,6 +235,8 @@ def op_unjson(j):
     if j[0] in ('ss', 'sr'):
         r = j[1]
         return (j[0], ('d', bytes.fromhex(r[1])) if r[0] == 'd' else tuple(r))
+    if j[0] == 'q' and len(j) > 5:
+        return tuple(j[:5]) + (tuple(j[5]),)
     return tuple(j)
 
 def run_history(rig, ops, irc=None):
@@ -239,7 +255,7 @@ def run_history(rig, ops, irc=None):
         if k == 'q':
             if not stub.zombie:
                 obs['queued'].append(op[1])
-            stub.queueMsg(RawMsg(op[1]))
+            stub.queueMsg(out_object(rig.ircmsgs, op))
         elif k == 'ss': fs.script.append(op[1])
         elif k == 'sr': fs.recvs.append(op[1])
         elif k == 'die': stub.zombie = True
@@ -287,6 +303,26 @@ def gen_out_msg(rig, r):
     if k == 8: return t            # a str() without CR LF: the driver must not care
     return 'PING :' + t + '\r\n'
 
+def gen_twin_ops(rig, r):
+    """real IrcMsg objects that are == (same prefix, command, args) but whose str() differ: one built from a raw
+    line (its str() is that line as given), one from the fields (its str() is the canonical spelling)"""
+    im = rig.ircmsgs
+    word = ''.join(r.choice('abcxyz019é中') for _ in range(r.randint(1, 6)))
+    k = r.randint(0, 4)
+    if k == 0: prefix, cmd, args, raws = '', 'PING', (word,), ['PING %s\r\n', 'PING %s\n', 'PING  %s\r\n', 'PING :%s\n']
+    elif k == 1: prefix, cmd, args, raws = '', 'PRIVMSG', ('#c', word), ['PRIVMSG #c %s\r\n', 'PRIVMSG #c %s\n', 'PRIVMSG  #c   %s\r\n']
+    elif k == 2: prefix, cmd, args, raws = '', 'JOIN', ('#' + word,), ['JOIN #%s\r\n', 'JOIN #%s\n', 'JOIN    #%s\n']
+    elif k == 3: prefix, cmd, args, raws = '', 'MODE', ('#c', '+o', word), ['MODE #c +o %s\r\n', 'MODE #c  +o  %s\n']
+    else: prefix, cmd, args, raws = 'n!u@h', 'NOTICE', ('x', word), [':n!u@h NOTICE x %s\r\n', ':n!u@h  NOTICE x %s\n']
+    canon = str(im.IrcMsg(prefix=prefix, command=cmd, args=args))
+    out = [('q', canon, 'f', prefix, cmd, args)]
+    for t in r.sample(raws, r.randint(1, len(raws))):
+        line = t % word
+        if line != canon:
+            out.append(('q', line, 'raw'))
+    r.shuffle(out)
+    return out
+
 EAGAIN_BURSTS = [1, 1, 2, 3, 7, 60, 100, 119, 120, 121]
 def gen_send_script(r, benign=True, n=None):
     out = []
@@ -319,6 +355,10 @@ def gen_write_case(rig, r):
     for _ in range(r.randint(1, 4)):
         for _ in range(r.randint(0, 4)):
             ops.append(('q', gen_out_msg(rig, r)))
+        if r.random() < 0.25:
+            tw = gen_twin_ops(rig, r)
+            for o in tw:
+                ops.insert(r.randint(max(0, len(ops) - 3), len(ops)), o)
         sc = gen_send_script(r)
         script_all += sc
         ops += [('ss', x) for x in sc]
@@ -353,6 +393,55 @@ def gen_stream(r):
         parts.append(r.choice(VALID_LINES).encode()[:r.randint(0, 9)])     # unterminated tail
     return b''.join(parts)
 
+LONG_SIZES = [513, 514, 520, 600, 700, 1000, 1023, 1024, 1025, 1100, 1500, 2047, 2049, 2600]
+def gen_long_line(r):
+    """a valid line longer than 512 bytes (message tags may take 8191 bytes on their own; some servers do not limit the rest either)"""
+    n = r.choice(LONG_SIZES)
+    k = r.randint(0, 4)
+    fill = lambda m, alpha='abcdefghij0123456789': ''.join(r.choice(alpha) for _ in range(max(1, m)))
+    if k == 0:
+        tags = []
+        while sum(len(t) + 1 for t in tags) < n:
+            tags.append('%s=%s' % (fill(r.randint(1, 8), 'abcdexyz'), fill(r.randint(1, 120))))
+        l = '@' + ';'.join(tags) + ' :n!u@h PRIVMSG #c :tagged'
+    elif k == 1: l = '@label=' + fill(n) + ' PING :x'
+    elif k == 2: l = ':n!u@h PRIVMSG #c :' + fill(n, 'abc def ghi')
+    elif k == 3: l = ':n!u@h PRIVMSG #c :' + fill(max(400, n // 2), 'aé中😀 ')
+    else: l = ':srv 353 bot = #c :' + ' '.join(fill(r.randint(1, 9), 'abcxyz') for _ in range(n // 5))
+    return l.encode()
+
+def gen_long_stream(r):
+    """-> (stream, [(start, end)] of the long lines in it, without their terminators)"""
+    out = b''; spans = []
+    n = r.randint(1, 4); sure = r.randrange(n)
+    for i in range(n):
+        if i == sure or r.random() < 0.4:
+            l = gen_long_line(r); spans.append((len(out), len(out) + len(l)))
+        else:
+            l = r.choice(VALID_LINES[:12]).encode()
+        out += l + r.choice([b'\r\n', b'\r\n', b'\n'])
+    if r.random() < 0.3:
+        l = gen_long_line(r)
+        out += l[:r.randint(1, len(l))]                # an unfinished long line stays buffered
+    return out, spans
+
+def partition_long(r, data, spans):
+    """few chunks; for the long lines a cut that leaves more than 512 bytes of the line waiting for its LF"""
+    cuts = set()
+    for (a, b) in spans:
+        k = r.randint(0, 3)
+        if k == 0: cuts.add(min(a + 513, b))
+        elif k == 1: cuts.add(r.randint(min(a + 513, b), b))
+        elif k == 2: cuts.add(b)                        # everything but the terminator
+        if r.random() < 0.3: cuts.add(a)
+    for _ in range(r.choice([0, 0, 1, 2, 5])):
+        cuts.add(r.randrange(1, len(data)))
+    cuts = sorted(c for c in cuts if 0 < c < len(data))
+    out = []; p = 0
+    for c in cuts + [len(data)]:
+        out.append(data[p:c]); p = c
+    return cap_chunks([x for x in out if x])
+
 def partition(r, data, mode):
     if not data: return []
     if mode == 'one': return cap_chunks([data])
@@ -386,6 +475,7 @@ def full_buffer_case(r):
     s = b''
     while len(s) < RECV_SIZE * r.choice([1, 2, 2, 3]) + r.choice([0, 0, 7]):
         s += gen_stream(r)
+        if r.random() < 0.15: s += gen_long_line(r) + b'\r\n'
     s = s.replace(b'ERROR', b'NOTICE')
     ops = []
     for i in range(0, len(s), RECV_SIZE):
@@ -475,7 +565,13 @@ def multi_cases(rig, r, n_cases):
         for _ in range(r.randint(4, 18)):
             i = r.randrange(n)
             k = r.randint(0, 9)
-            if k < 3: op = ('m', i, ('q', gen_out_msg(rig, r)))
+            if k < 1:
+                # the same message (==) spelled differently, for different networks
+                tw = gen_twin_ops(rig, r)
+                for o in tw[:-1]:
+                    ops.append(('m', r.randrange(n), o))
+                op = ('m', r.randrange(n), tw[-1])
+            elif k < 3: op = ('m', i, ('q', gen_out_msg(rig, r)))
             elif k < 5: op = ('m', i, ('ss', r.choice([('s', r.randint(0, 9)), ('e', 11), ('s', 0), ('s', 10 ** 6)])))
             elif k < 8:
                 # (no line that makes the stub reconnect and no fatal socket error here: leaving _instances inside _select
@@ -500,7 +596,7 @@ def multi_cases(rig, r, n_cases):
             else:
                 _, i, o = op
                 stub = mr.stubs[i]; fs = mr.ds[i].conn
-                if o[0] == 'q': stub.queueMsg(RawMsg(o[1]))
+                if o[0] == 'q': stub.queueMsg(out_object(rig.ircmsgs, o))
                 elif o[0] == 'ss': fs.script.append(o[1])
                 elif o[0] == 'sr':
                     fs.recvs.append(o[1])
@@ -579,12 +675,16 @@ def oracle_read(rig, r, stream_ops, obs):
         ref_ops += [('sr', ('d', c)), ('loop',)]
     _, ref = run_history(rig, ref_ops + [('loop',)] * 2)
     if obs['fed'] != ref['fed']:
-        return False, 'delivered %d message(s) %r but the same bytes in one recv() deliver %d: %r' % (
-            len(obs['fed']), obs['fed'][:3], len(ref['fed']), ref['fed'][:3])
+        i = next((i for i in range(min(len(ref['fed']), len(obs['fed']))) if ref['fed'][i] != obs['fed'][i]), min(len(ref['fed']), len(obs['fed'])))
+        show = lambda l: [x if len(x) < 200 else x[:90] + '…(%d)…' % len(x) + x[-60:] for x in l[i:i + 2]]
+        return False, 'delivered %d message(s), from number %d on %r, but the same bytes in as few recv(1024) as possible deliver %d, from number %d on %r' % (
+            len(obs['fed']), i, show(obs['fed']), len(ref['fed']), i, show(ref['fed']))
     want = reference_messages(rig, data)
     if obs['fed'] != want:
-        return False, 'delivered %d message(s) %r but the LF-terminated lines of the stream %r are %d message(s): %r' % (
-            len(obs['fed']), obs['fed'][:3], data[:80], len(want), want[:3])
+        i = next((i for i in range(min(len(want), len(obs['fed']))) if want[i] != obs['fed'][i]), min(len(want), len(obs['fed'])))
+        show = lambda l: [x if len(x) < 200 else x[:90] + '…(%d)…' % len(x) + x[-60:] for x in l[i:i + 2]]
+        return False, 'delivered %d message(s), from number %d on %r, but the LF-terminated lines of the stream (%d bytes, longest line %d) are %d message(s), from number %d on %r' % (
+            len(obs['fed']), i, show(obs['fed']), len(data), max(len(l) for l in data.split(b'\n')), len(want), i, show(want))
     return True, ''
 
 def case_tags(ops, outs, obs):
@@ -612,6 +712,10 @@ def case_tags(ops, outs, obs):
         if c and (c[0] & 0xC0) == 0x80: t.add('cut-inside-multibyte')
         if c and c[0] == 10: t.add('cut-before-LF')
     if len(chunks) > 1: t.add('multi-chunk')
+    if any(len(l) > 512 for l in b''.join(chunks).split(b'\n')): t.add('line>512')
+    if any(len(l) > 1024 for l in b''.join(chunks).split(b'\n')): t.add('line>1024')
+    if any(' ib=' in o and len(o.split(' ib=')[1].split(' ')[0]) > 1024 for o in outs): t.add('>512-bytes-buffered-without-LF')
+    if sum(1 for o in ops if o[0] == 'q' and len(o) > 2) > 1: t.add('equal-messages-spelled-differently')
     data = b''.join(chunks)
     if data:
         try: data.decode('utf-8')
@@ -664,6 +768,9 @@ def explore(rig, stream, n_write, n_read, n_mixed, exhaustive_bytes=0, corpus=Tr
         cases.append(make_case(rig, r, read_ops(r, partition(r, s, mode)), 'read-' + mode, reads=True))
     for _ in range(max(20, n_read // 12)):
         cases.append(make_case(rig, r, full_buffer_case(r), 'read-full-buffer', reads=True))
+    for _ in range(max(20, n_read // 10)):
+        s, spans = gen_long_stream(r)
+        cases.append(make_case(rig, r, read_ops(r, partition_long(r, s, spans), noise=False), 'read-long-lines', reads=True))
     for _ in range(exhaustive_bytes):
         s = gen_stream(r)[:120]
         cases.append(make_case(rig, r, read_ops(r, partition(r, s, 'bytes'), noise=False), 'read-bytes', reads=True))
